@@ -1,7 +1,9 @@
 (* C10 -- L2 model of extract / Insert(ExtractedItem&&) / merge exactly as coded:
      SetExtractedItem                      SetUtility.h:253-338   (holder: at most one relocated item)
      HashSet::pvExtract / pvRemove         HashSet.h:1188-1216    (replacer: Relocate or ReplaceRelocate)
-     BucketOpenN1::Remove                  HashBucketOpenN1.h:137 (the last item of the bucket takes the hole)
+     Bucket::Remove                        the last item (in bounds order) of the bucket takes the hole: BucketOpen2N2::Remove
+                                           (HashBucketOpen2N2.h:168 -- the class the tie really instantiates: HashBucketOpen8 falls back
+                                           to Open2N2<3> for keys that are not fast-hashable), BucketOpenN1 / LimP4 likewise
      HashSetConstIterator                  HashSet.h:349-383      (buckets ascending, items of a bucket last to first)
      HashSet::pvMergeTo                    HashSet.h:1302-1313
      TreeSet::pvExtract / pvMergeTo        TreeSet.h:1358-1365, 1597-1608 (leaf: Relocate; internal: ReplaceRelocate with the predecessor)
